@@ -190,6 +190,15 @@ func (p c13) Gen(r *simhook.Rand, tier string, idx int) harness.Scenario {
 			sc.Toggles = append(sc.Toggles, Toggle{AfterSend: at, Enable: en})
 		}
 	}
+	// hash field names: short, or (a quarter of the scenarios) as long as the threshold and repetitive - a field name
+	// is not a value: it is never compressed, whatever its length
+	longNames := r.Chance(1, 4) && th <= 1024
+	fname := func(i int) string {
+		if longNames {
+			return strings.Repeat("fld.", th/4+2) + fmt.Sprint(i)
+		}
+		return fmt.Sprintf("f%d", i)
+	}
 	redirect := r.Chance(1, 3)
 	nconn := 1 + r.Intn(4)
 	for ci := 0; ci < nconn; ci++ {
@@ -231,10 +240,10 @@ func (p c13) Gen(r *simhook.Rand, tier string, idx int) harness.Scenario {
 			case x < 43:
 				a = world.Bins([]string{"HSET", "HMSET"}[r.Intn(2)], hkey)
 				for i := 0; i < 1+r.Intn(4); i++ {
-					a = append(a, world.Bin(fmt.Sprintf("f%d", r.Intn(4))), v())
+					a = append(a, world.Bin(fname(r.Intn(4))), v())
 				}
 			case x < 46:
-				a = append(world.Bins("HSETNX", hkey, fmt.Sprintf("f%d", r.Intn(4))), v())
+				a = append(world.Bins("HSETNX", hkey, fname(r.Intn(4))), v())
 			case x < 62:
 				a = world.Bins("GET", key)
 			case x < 68:
@@ -243,9 +252,9 @@ func (p c13) Gen(r *simhook.Rand, tier string, idx int) harness.Scenario {
 					a = append(a, world.Bin(keys[r.Intn(len(keys))]))
 				}
 			case x < 76:
-				a = world.Bins("HGET", hkey, fmt.Sprintf("f%d", r.Intn(4)))
+				a = world.Bins("HGET", hkey, fname(r.Intn(4)))
 			case x < 81:
-				a = world.Bins("HMGET", hkey, "f0", "f1", "f2", "f3")
+				a = world.Bins("HMGET", hkey, fname(0), fname(1), fname(2), fname(3))
 			case x < 88:
 				a = world.Bins([]string{"HGETALL", "HVALS"}[r.Intn(2)], hkey)
 				if r.Chance(1, 3) {
